@@ -20,7 +20,7 @@ ID = 'C03'
 
 MANIFEST = dict(
     technique='explicit-state enumeration of the CTC matrix input tree x full LM/scale/bonus/beam/EOS/initial-state configuration product; real decoder + real LMWrapper + toy prefix-hash LMs vs sequential LM re-scoring and a reference LM-fused prefix beam search',
-    text='Bounded exhaustive: every matrix with T <= 3 (quick) / 4 (thorough) rows over a 6-row alphabet in each of 384 configurations. For every returned hypothesis the LM score must equal the sum of the wrapper\'s own per-character scores (+ bonus, + EOS) from the start state; best_hyp() must be the arg-max of vis + scale*LM, confidence() its posterior, the returned hidden state exactly the state of that transcript; scale 0 must reproduce LM-free decoding; the returned set must equal a reference prefix beam search ranked by the fused score. Added sub-sweeps: the same decoder object decoding another and a blank-only line first, exact ties of the fused score (hand-over and returned state must agree), and decoders built by decoder_factory from a configuration section (all scales incl. 0 x bonuses x beam widths) against directly constructed ones.',
+    text='Bounded exhaustive: every matrix with T <= 3 (quick) / 4 (thorough) rows over a 6-row alphabet in each of 384 configurations. For every returned hypothesis the LM score must equal the sum of the wrapper\'s own per-character scores (+ bonus, + EOS) from the start state; best_hyp() must be the arg-max of vis + scale*LM, confidence() its posterior, the returned hidden state exactly the state of that transcript; scale 0 must reproduce LM-free decoding; the returned set must equal a reference prefix beam search ranked by the fused score. Added sub-sweeps: the same decoder object decoding another and a blank-only line first, exact ties of the fused score (hand-over and returned state must agree), and decoders built by decoder_factory from a configuration section (all scales incl. 0 x bonuses x beam widths) against directly constructed ones. After every decode the returned bag is re-weighted with each other LM scale (bag.lm_weight is a public attribute): best_hyp() and confidence() must follow the new scale.',
     note='Toy LMs only (trained brnolm models are not available offline); the LM vocabulary equals the decoder letters; scores compared within 1e-9; near-ties (< 1e-9) of the fused score skip the arg-max clauses.',
     ref='3/C03')
 
@@ -250,6 +250,30 @@ def check_case(case, ctx):
                               f'{h_value(hwant)}', sub)
                 continue
             ctx.tag('tie-handled-consistently')
+        # (2b) the bag archives its LM scale as a plain attribute: re-weighted with another scale, the result it reports is the maximum under THAT scale
+        #      (scale 0: the visually best hypothesis) and the confidence is that hypothesis' posterior
+        bad = None
+        for w2 in SCALES:
+            if w2 == scale:
+                continue
+            boh.lm_weight = w2
+            tot2 = [v + w2 * l for _, v, l in hyps]
+            o2 = sorted(range(len(hyps)), key=lambda i: -tot2[i])
+            tied2 = [hyps[i][0] for i in o2 if tot2[o2[0]] - tot2[i] <= EPS]
+            b2, c2 = boh.best_hyp(), boh.confidence()
+            ctx.executed(2)
+            post2 = math.exp(tot2[o2[0]] - np.logaddexp.reduce(np.asarray(tot2)))
+            if b2 not in tied2 or abs(c2 - post2) > EPS:
+                bad = (w2, b2, c2, tied2, post2)
+                break
+            if len(tied2) == 1 and tied2[0] != best:
+                ctx.tag('re-weighted-bag-changes-the-winner')
+        boh.lm_weight = scale
+        if bad:
+            ctx.violation('result-maximises-fused-score', f'{K}/re-weighted-bag',
+                          f'{desc}; with bag.lm_weight set to {bad[0]} afterwards best_hyp() = {bad[1]!r}, confidence() = {bad[2]}; the maximum of '
+                          f'vis + {bad[0]}*lm is {bad[3]} with posterior {bad[4]}', sub)
+            continue
         # (3) scale 0 reproduces LM-free decoding
         if scale == 0.0:
             if k not in plain:
@@ -302,5 +326,5 @@ def describe(tier):
         'assumptions': ['LM vocabulary == decoder letters (the decoder indexes LM columns by letter index)',
                         'arg-max clauses are skipped when the two best fused scores are within 1e-9'],
         'min_nontrivial': 100,
-        'required_tags': ['decoder-built-from-configuration', 'tie-handled-consistently', 'decoder-reused-for-another-line', 'lm-changes-the-winner', 'scale-changes-the-winner', 'scale-zero-cases', 'beam-pruned'],
+        'required_tags': ['re-weighted-bag-changes-the-winner', 'decoder-built-from-configuration', 'tie-handled-consistently', 'decoder-reused-for-another-line', 'lm-changes-the-winner', 'scale-changes-the-winner', 'scale-zero-cases', 'beam-pruned'],
     }
